@@ -140,10 +140,88 @@ fn artifact(input: &Tree) -> std::result::Result<Tree, String> {
     Ok(ok(L(vec![L(out), u(n_inst)])))
 }
 
+static COUNTER: std::sync::atomic::AtomicU64 = std::sync::atomic::AtomicU64::new(0);
+
+fn msg_tree<T: Message + std::fmt::Debug>(m: &T) -> Tree {
+    L(vec![a("ok"), a(&hex(&m.encode_to_vec())), a(&format!("{m:?}"))])
+}
+
+/// c07_artifact_foreign: [type name (instance | parametricinstance | state | sampleset), hex bytes]
+///   the bytes (any conforming encoding, e.g. of another implementation or a newer schema) are stored as the
+///   blob of one layer of a local OCI archive under the media type of the kind; the archive is reopened and
+///   the layer is read through the typed accessor by digest (and through the listing accessor where one exists)
+///   -> ok(hex of encode_to_vec(message the accessor returned), Debug) | err
+fn artifact_foreign(input: &Tree) -> std::result::Result<Tree, String> {
+    use ommx::artifact::{media_types, Artifact, Builder};
+    let xs = input.as_list()?;
+    let name = xs[0].as_str()?;
+    let bytes = unhex(xs[1].as_str()?)?;
+    // mode "get": typed accessor by digest; mode "list": the listing accessor (instance / state only)
+    let listing = xs.len() > 2 && xs[2].as_str()? == "list";
+    let mt = match name {
+        "instance" => media_types::v1_instance(),
+        "parametricinstance" => media_types::v1_parametric_instance(),
+        "state" => media_types::v1_solution(),
+        "sampleset" => media_types::v1_sample_set(),
+        _ => return Ok(err("unknown-type", name)),
+    };
+    let dir = std::path::PathBuf::from("/verif/.cache/tmp");
+    std::fs::create_dir_all(&dir).map_err(|e| format!("tmp dir: {e}"))?;
+    let n = COUNTER.fetch_add(1, std::sync::atomic::Ordering::SeqCst);
+    let path = dir.join(format!("c07-{}-{}.ommx", std::process::id(), n));
+    let _ = std::fs::remove_file(&path);
+    let run = || -> std::result::Result<Tree, String> {
+        let mut builder = Builder::new_archive_unnamed(path.clone()).map_err(|e| format!("builder: {e:#}"))?;
+        builder
+            .add_layer(mt.clone(), &bytes, Default::default())
+            .map_err(|e| format!("add_layer: {e:#}"))?;
+        let _ = builder.build().map_err(|e| format!("build: {e:#}"))?;
+        let mut art = Artifact::from_oci_archive(&path).map_err(|e| format!("open: {e:#}"))?;
+        let layers = art.get_layers().map_err(|e| format!("layers: {e:#}"))?;
+        let digest = match layers.first() {
+            Some((d, _)) => d.digest().to_string(),
+            None => return Ok(err("artifact", "no layer")),
+        };
+        let digest = ommx::ocipkg::Digest::new(&digest).map_err(|e| format!("digest: {e:#}"))?;
+        Ok(match name {
+            "instance" if listing => match art.get_instances() {
+                Ok(v) if v.len() == 1 => msg_tree(&v[0].1),
+                Ok(v) => err("artifact-get", &format!("get_instances: {} layers", v.len())),
+                Err(e) => err("artifact-get", &format!("get_instances: {e:#}")),
+            },
+            "state" if listing => match art.get_solutions() {
+                Ok(v) if v.len() == 1 => msg_tree(&v[0].1),
+                Ok(v) => err("artifact-get", &format!("get_solutions: {} layers", v.len())),
+                Err(e) => err("artifact-get", &format!("get_solutions: {e:#}")),
+            },
+            "instance" => match art.get_instance(&digest) {
+                Ok((m, _)) => msg_tree(&m),
+                Err(e) => err("artifact-get", &format!("{e:#}")),
+            },
+            "parametricinstance" => match art.get_parametric_instance(&digest) {
+                Ok((m, _)) => msg_tree(&m),
+                Err(e) => err("artifact-get", &format!("{e:#}")),
+            },
+            "state" => match art.get_solution(&digest) {
+                Ok((m, _)) => msg_tree(&m),
+                Err(e) => err("artifact-get", &format!("{e:#}")),
+            },
+            _ => match art.get_sample_set(&digest) {
+                Ok((m, _)) => msg_tree(&m),
+                Err(e) => err("artifact-get", &format!("{e:#}")),
+            },
+        })
+    };
+    let out = run();
+    let _ = std::fs::remove_file(&path);
+    out
+}
+
 pub fn dispatch(op: &str, input: &Tree) -> Option<std::result::Result<Tree, String>> {
     match op {
         "c07_roundtrip" => Some(roundtrip(input)),
         "c07_artifact" => Some(artifact(input)),
+        "c07_artifact_foreign" => Some(artifact_foreign(input)),
         "c07_types" => Some(Ok(ok(list(TYPES.iter(), |s| a(s))))),
         _ => None,
     }
